@@ -44,6 +44,7 @@ import (
 	"go/token"
 	"math"
 	"math/big"
+	"os"
 	"sort"
 	"strings"
 
@@ -769,12 +770,20 @@ func checkEveryLineConverted(ctx *Ctx, r *Report) {
 		if !ok {
 			return
 		}
-		if _, isCall := ins.(*ssa.Call); !isCall {
+		fillIn := false
+		if c, isCall := ins.(*ssa.Call); !isCall {
 			if al, isAlloc := ins.(*ssa.Alloc); !isAlloc || !al.Heap {
 				return
 			}
+		} else if g := c.Call.StaticCallee(); g != nil && g.Signature.Results().Len() == 0 {
+			// `info[i].set(l)`: the record is filled in place
+			for _, a := range c.Call.Args {
+				if strings.HasSuffix(a.Type().String(), "sdf.lineInfo") {
+					fillIn = true
+				}
+			}
 		}
-		if !strings.HasSuffix(v.Type().String(), "sdf.lineInfo") || innermostLoop(fn, b) == nil {
+		if !(fillIn || strings.HasSuffix(v.Type().String(), "sdf.lineInfo")) || innermostLoop(fn, b) == nil {
 			return
 		}
 		n++
@@ -944,21 +953,49 @@ func checkWindingTraversalTests(ctx *Ctx, r *Report) {
 // vertices do that) into a horizontal one for the side test while the crossing rule still sees
 // it rise: the half-open rule then miscounts on the level of its lower end.
 func checkSegmentRecord(ctx *Ctx, r *Report) {
-	fn := ctx.ssaFunc("sdf", "newLineInfo")
+	fn := segmentRecordBuilder(ctx)
 	if fn == nil {
 		r.undecided("W13", "newLineInfo", 0, "not found")
 		return
 	}
 	ev := newEval(ctx)
 	res, st := ev.evalRoot(fn)
+	segIdx, recIdx := -1, -1
+	for i, p := range fn.Params {
+		ts := p.Type().String()
+		switch {
+		case strings.HasSuffix(ts, "sdf.Line2") && segIdx < 0:
+			segIdx = i
+		case strings.HasSuffix(ts, "sdf.lineInfo") && recIdx < 0:
+			recIdx = i
+		}
+	}
+	if segIdx < 0 {
+		r.undecided("W13", shortFn(fn), fn.Pos(), "no segment parameter")
+		return
+	}
 	obj, ok := resultObject(res, st)
+	if !ok && recIdx >= 0 {
+		// the record is filled in place (a method of the record)
+		for o, v := range st.mem {
+			if ag, isAgg := v.(*Agg); isAgg && ag.T != nil && o.name == paramName(fn, recIdx) && strings.HasSuffix(ag.T.String(), "sdf.lineInfo") {
+				obj, ok = v, true
+			}
+		}
+	}
 	if !ok {
 		r.undecided("W13", "newLineInfo", fn.Pos(), "the result is not a fresh record")
 		return
 	}
 	m := map[string]*Term{}
 	leafTerms("", obj, m)
-	l := paramName(fn, 0)
+	if os.Getenv("SDFXLINT_DEBUG") != "" {
+		fmt.Fprintln(os.Stderr, "DBG W13", shortFn(fn), segIdx, recIdx, valKey(obj))
+		for o, v := range st.mem {
+			fmt.Fprintln(os.Stderr, "DBG mem", o.name, shortKey(valKey(v), 200))
+		}
+	}
+	l := paramName(fn, segIdx)
 	bad := ""
 	var length *Term
 	for k, t := range m {
@@ -985,6 +1022,39 @@ func checkSegmentRecord(ctx *Ctx, r *Report) {
 	}
 	r.check("W13", "newLineInfo|direction-is-the-normalised-edge-vector", fn.Pos(), bad == "", "unitVector·length ≡ l[1] − l[0] on both axes, no case distinction;"+bad)
 	r.floor("W13", 1)
+}
+
+// segmentRecordBuilder: the function that fills the per-segment record of the polygon SDF -
+// newLineInfo, or whatever convertLines calls with a record or to get one.
+func segmentRecordBuilder(ctx *Ctx) *ssa.Function {
+	if fn := ctx.ssaFunc("sdf", "newLineInfo"); fn != nil {
+		return fn
+	}
+	cl := ctx.ssaFunc("sdf", "convertLines")
+	if cl == nil {
+		return nil
+	}
+	var out *ssa.Function
+	allInstrs(cl, func(_ *ssa.BasicBlock, ins ssa.Instruction) {
+		c, ok := ins.(*ssa.Call)
+		if !ok {
+			return
+		}
+		g := c.Call.StaticCallee()
+		if g == nil || !inModule(g) || len(g.Blocks) == 0 {
+			return
+		}
+		if strings.HasSuffix(c.Type().String(), "sdf.lineInfo") {
+			out = g
+			return
+		}
+		for _, p := range g.Params {
+			if strings.HasSuffix(p.Type().String(), "*"+modPath+"/sdf.lineInfo") {
+				out = g
+			}
+		}
+	})
+	return out
 }
 
 // checkClosingEdge (W14): a closed outline gets its closing edge unless the last vertex repeats
